@@ -20,3 +20,47 @@ pub fn vlast_copied<T: Copy>(v: &Vec<T>) -> (r: Option<T>)
 {
     if v.len() == 0 { None } else { Some(v[v.len() - 1]) }
 }
+
+/// `iter.peek().copied()` on a not yet consumed sequence (rule R22): its first element by value
+pub fn vfirst_copied<T: Copy>(v: &Vec<T>) -> (r: Option<T>)
+    ensures r == (if v@.len() == 0 { None } else { Some(v@[0]) }),
+{
+    if v.len() == 0 { None } else { Some(v[0]) }
+}
+
+/// concatenation of the inner vectors
+pub open spec fn flat_seq<T>(vss: Seq<Vec<T>>) -> Seq<T>
+    decreases vss.len(),
+{
+    if vss.len() == 0 { Seq::<T>::empty() } else { flat_seq(vss.drop_last()) + vss.last()@ }
+}
+/// `X.iter().flatten().copied()` handed over as a sequence (rule R22flat)
+pub fn vflatten_copied<T: Copy>(v: &Vec<Vec<T>>) -> (r: Vec<T>)
+    ensures r@ == flat_seq(v@),
+{
+    let mut out: Vec<T> = Vec::new();
+    let mut i: usize = 0;
+    while i < v.len()
+        invariant i <= v@.len(), out@ == flat_seq(v@.take(i as int)),
+        decreases v@.len() - i,
+    {
+        let mut j: usize = 0;
+        let ghost base = out@;
+        while j < v[i].len()
+            invariant i < v@.len(), j <= v@[i as int]@.len(), out@ == base + v@[i as int]@.take(j as int),
+            decreases v@[i as int]@.len() - j,
+        {
+            out.push(v[i][j]);
+            proof { assert(v@[i as int]@.take(j as int + 1) =~= v@[i as int]@.take(j as int).push(v@[i as int]@[j as int])); }
+            j += 1;
+        }
+        proof {
+            assert(v@[i as int]@.take(j as int) =~= v@[i as int]@);
+            assert(v@.take(i as int + 1).drop_last() =~= v@.take(i as int));
+            assert(v@.take(i as int + 1).last() == v@[i as int]);
+        }
+        i += 1;
+    }
+    proof { assert(v@.take(i as int) =~= v@); }
+    out
+}
